@@ -968,6 +968,11 @@ func computePostOrder(blocks []*cfg.Block) []int {
 	return postOrder
 }
 
+// ErrFuncTooLarge is the error (possibly wrapped) that BackpropAcrossFunc returns when it gives up on a
+// function because its assertion trees have outgrown config.MaxAssertionTreeSize. It is not an
+// internal failure: the caller reports the function as skipped.
+var ErrFuncTooLarge = errors.New("function too large")
+
 // BackpropAcrossFunc is the main driver of the backpropagation, it takes a function declaration
 // with accompanying CFG, and back-propagates a tree of assertions across it to generate, at entry
 // to the function, the set of assertions that must hold to avoid possible nil flow errors.
@@ -1001,6 +1006,11 @@ func BackpropAcrossFunc(
 	var currRootAssertionNode, nextRootAssertionNode *RootAssertionNode
 	roundCount, stableRoundCount := 0, 0
 	postOrder := computePostOrder(blocks)
+
+	// The size of the assertion tree of each block as of its last update, and their sum: the trees can
+	// grow exponentially in the number of rounds and of blocks (see config.MaxAssertionTreeSize), so we
+	// stop the backpropagation when the sum exceeds the limit.
+	treeSizes, totalTreeSize := make([]int, len(blocks)), 0
 
 	// Initialize the process by creating the assertion nodes for the return block.
 	retBlock := len(blocks) - 1
@@ -1119,6 +1129,17 @@ func BackpropAcrossFunc(
 				}
 			} else {
 				updatedThisRound[i] = true
+			}
+
+			// Give up on the function once the assertion trees of its blocks have outgrown the limit
+			// (see config.MaxAssertionTreeSize).
+			size := nextAssertions[i].Size()
+			totalTreeSize += size - treeSizes[i]
+			treeSizes[i] = size
+			if totalTreeSize > config.MaxAssertionTreeSize {
+				return nil, roundCount, stableRoundCount, fmt.Errorf("%w (the assertion trees hold %d "+
+					"expressions and triggers in round %d, exceeds limit of %d)",
+					ErrFuncTooLarge, totalTreeSize, roundCount, config.MaxAssertionTreeSize)
 			}
 		}
 
